@@ -112,7 +112,7 @@ CHECKS = {
              "full congruence closure). Every set is replayed on the real unifier (outcome must be the model's), and "
              "random sets of up to 40 variables with packed spans, cyclic evidence (self-referential spans, cycles through several packed "
              "encodings), deep chains of nested constructors are validated by UnifyTrace.tla; every variable of the state, including "
-             "those the unifier allocated, must be known to the resulting forest. The combination of two packed encodings is specified on its own (PackedMerge.tla: the common refinement of two span partitions; every input span's variable is tied to exactly the refined spans within it, re-based to its start): PackedGen enumerates every pair of encodings of <= 2/3 spans over 5/6 units, the real merge combines each, and PackedTrace.tla checks Inv_C14_Components/packed-merge.",
+             "those the unifier allocated, must be known to the resulting forest. The combination of two packed encodings is specified on its own (PackedMerge.tla: the common refinement of two span partitions; every input span's variable is tied to exactly the refined spans within it, re-based to its start): PackedGen enumerates every pair of encodings of <= 2 spans (quick) or <= 3 spans (thorough) over 6 units, the real merge combines each, and PackedTrace.tla checks Inv_C14_Components/packed-merge.",
         note="""Packed encodings are outside the model's alphabet: for judgement sets that contain them only the order-independent post-conditions (termination, one expression, declared equalities, determinism) are evaluated.""",
         technique="TLA+ unifier model (powerset construction over fold orders) checked by TLC; replay into the real "
                   "unifier; TLC trace validation of projected forests",
